@@ -351,7 +351,7 @@ func execAC(p *ACPlan, keepLog bool) acResult {
 	res := acResult{probes: map[string]int{}, faults: map[string]int{}}
 	k := simunix.NewKernel(simunix.Config{Ordered: p.Ordered, MaxWrite: p.MaxWrite, Trace: true})
 	setupAC(k, p)
-	s := simrt.New(simrt.Config{Tape: simrt.Replay(nil, nil), KeepLog: keepLog, MaxSteps: 3000000})
+	s := simrt.New(simrt.Config{DaemonsOK: true, Tape: simrt.Replay(nil, nil), KeepLog: keepLog, MaxSteps: 3000000})
 	simunix.Attach(s, k)
 	data := model.Chunk(p.DataID, p.DataLen)
 	var old []byte
@@ -602,7 +602,7 @@ func execACConc(p *ACPlan, pj []byte, tape *simrt.Tape, keepLog bool) harness.Ru
 	if p.System == "dir" {
 		setupAC(k, p)
 	}
-	s := simrt.New(simrt.Config{Tape: tape, KeepLog: keepLog})
+	s := simrt.New(simrt.Config{DaemonsOK: true, Tape: tape, KeepLog: keepLog})
 	simunix.Attach(s, k)
 	type crec struct {
 		Call, Ret int64
